@@ -968,6 +968,12 @@ class Exec:
                 return []
             except Unsupported as e:
                 raise Unsupported('%s [%s %s %s]' % (e, fname, ins.get('pos'), op)) from None
+            except (TypeError, AttributeError, KeyError, IndexError, ValueError, AssertionError) as e:
+                # engine fault: say where in the Go code it happened (innermost frame only)
+                if not getattr(e, '_verif_where', None):
+                    e._verif_where = '%s %s %s' % (fname, ins.get('pos'), op)
+                    e.args = (('%s [engine fault while executing %s]' % (e.args[0] if e.args else '', e._verif_where)),) + tuple(e.args[1:])
+                raise
         raise Unsupported('block without terminator in %s' % fname)
 
     # ---- single instruction; returns the (possibly narrowed) guard
